@@ -196,7 +196,7 @@ def rule_image_loops(ctx) -> None:
             for length in (0, 3, 4, 8, 11, 16):
                 for s, e_excl in ((0, 8), (8, 16), (4, 12), (8, 24), (100, 104)):
                     for enc in (True, False):
-                        end = e_excl - 1 if inclusive else e_excl
+                        end = e_excl - 1  # key blob ranges are inclusive in both engines (end address = last byte covered)
                         try:
                             out, recs = _image_model(ctx, fn, U, [(s, end, enc)], base, length, inclusive, extra)
                         except ordereval.Unsupported as ex:
